@@ -28,4 +28,10 @@ def run(ctx):
         "or both; now and then the watcher is restarted in between); then X answers (`wti`), and the token bridge's genuine "
         "attestation of X must be delivered, forwarded by the polling path and by a re-observation request served by the same "
         "Watcher and Client (wellformed-event-dropped, final-message-not-forwarded, reobs-wellformed-event-dropped); rst: restart "
-        "scenarios, see C08 - after the last restart everything delivered and final is owed again")
+        "scenarios, see C08 - after the last restart everything delivered and final is owed again"
+        "; pgf: page-failure histories - one request of a 2..4-page round (page sizes 1, 2; every page position in turn, or the count "
+        "poll) fails once, then the node is healthy; a watcher that ends is restarted like the supervisor does, one that carries on stays "
+        "bound: every event the node served in a page answer of that round is owed at the drain (final-message-not-forwarded), its next "
+        "round may start where the failed one started or stopped; the fake node executes metadata calls per group (a call naming another "
+        "group than the last byte of the contract id finds no contract), 40% of the tokens live in groups 0..3; paths / shipped "
+        "configurations: see C08")
